@@ -43,6 +43,7 @@ def plain_rows(stage, n):
 
 class C19(scen.WorldProp):
     id = "C19"
+    fuzz_kinds = "all"
     lean_module = "Wheatley.Props.C19"
     theorems = ["Wheatley.C19.ir_disciplined",
                 "Wheatley.C19.step_keeps_mutex",
